@@ -79,9 +79,9 @@ def pduShape : List Enc → Prop
 
 mutual
 def Enc.WF : Enc → Prop
-  | .prim f t c => f.ok c.length ∧ t ≠ 255 ∧ (lookup t).kind ≠ "seq" ∧ (lookup t).kind ≠ "pdu"
-  | .cons f t items => f.ok (Enc.bytesL items).length ∧ t ≠ 255 ∧ (lookup t).kind = "seq" ∧ Enc.WFL items
-  | .pdu f t items => f.ok (Enc.bytesL items).length ∧ t ≠ 255 ∧ (lookup t).kind = "pdu" ∧ Enc.WFL items ∧ pduShape items
+  | .prim f t c => f.ok c.length ∧ (t ≠ 255 ∧ Gen.noDefaultCtor.contains (lookup t).name = false) ∧ (lookup t).kind ≠ "seq" ∧ (lookup t).kind ≠ "pdu"
+  | .cons f t items => f.ok (Enc.bytesL items).length ∧ (t ≠ 255 ∧ Gen.noDefaultCtor.contains (lookup t).name = false) ∧ (lookup t).kind = "seq" ∧ Enc.WFL items
+  | .pdu f t items => f.ok (Enc.bytesL items).length ∧ (t ≠ 255 ∧ Gen.noDefaultCtor.contains (lookup t).name = false) ∧ (lookup t).kind = "pdu" ∧ Enc.WFL items ∧ pduShape items
 def Enc.WFL : List Enc → Prop
   | [] => True
   | e :: es => e.WF ∧ Enc.WFL es
@@ -121,7 +121,8 @@ theorem readNode_leaf (data : Bytes) (fuel depth : Nat) (n : Node)
   split <;> simp_all
 
 /-- `decodeAt` on a TLV in form `f` at offset `|pre|`, with the node spelled out -/
-theorem decodeAt_node (f : LenForm) (t : Nat) (c pre rest : Bytes) (hf : f.ok c.length) (ht : t ≠ 255) :
+theorem decodeAt_node (f : LenForm) (t : Nat) (c pre rest : Bytes) (hf : f.ok c.length) (ht : t ≠ 255)
+    (hctor : Gen.noDefaultCtor.contains (lookup t).name = false) :
     decodeAt (pre ++ Spec.tlv f t c ++ rest) pre.length =
       .ok (⟨lookup t, t, ⟨pre.length + 1 + (specLength f c.length).length,
         ((pre.length + 1 + (specLength f c.length).length + c.length : Nat) : Int)⟩⟩,
@@ -130,7 +131,7 @@ theorem decodeAt_node (f : LenForm) (t : Nat) (c pre rest : Bytes) (hf : f.ok c.
   unfold decodeAt
   simp only [hget, ht, ↓reduceIte]
   rw [getValueSlice_spec f t c pre rest hf]
-  simp only [Except.bind, bind, pure, Except.pure]
+  simp only [Except.bind, bind, pure, Except.pure, hctor, Bool.false_eq_true, ↓reduceIte]
   congr 2
   simp [Spec.tlv]; omega
 
@@ -224,7 +225,7 @@ theorem decode_enc : ∀ (e : Enc), e.WF → ∀ (pre rest : Bytes) (fuel depth 
     simp only [Enc.depth] at hd
     obtain ⟨d, rfl⟩ : ∃ d, depth = d + 1 := ⟨depth - 1, by omega⟩
     refine ⟨nodeAt f t c pre, ?_, rfl, ?_⟩
-    · simp only [Enc.bytes]; exact decodeAt_node f t c pre rest hf ht
+    · simp only [Enc.bytes]; exact decodeAt_node f t c pre rest hf ht.1 ht.2
     · simp only [Enc.bytes, Enc.tree]
       rw [readNode_leaf _ _ _ _ (by simpa [nodeAt] using hs) (by simpa [nodeAt] using hp), nodeAt_content]
       rfl
@@ -235,7 +236,7 @@ theorem decode_enc : ∀ (e : Enc), e.WF → ∀ (pre rest : Bytes) (fuel depth 
     simp only [Enc.width] at hw
     obtain ⟨d, rfl⟩ : ∃ d, depth = d + 1 := ⟨depth - 1, by omega⟩
     refine ⟨nodeAt f t (Enc.bytesL items) pre, ?_, rfl, ?_⟩
-    · simp only [Enc.bytes]; exact decodeAt_node f t _ pre rest hf ht
+    · simp only [Enc.bytes]; exact decodeAt_node f t _ pre rest hf ht.1 ht.2
     · simp only [Enc.bytes, Enc.tree]
       rw [readNode_seq _ _ _ _ (by simpa [nodeAt] using hk)]
       -- the content of the node as a stretch of the datagram
@@ -312,7 +313,7 @@ theorem decode_enc : ∀ (e : Enc), e.WF → ∀ (pre rest : Bytes) (fuel depth 
     simp only [Enc.width, Enc.widthL] at hw
     obtain ⟨dd, rfl⟩ : ∃ dd, depth = dd + 1 := ⟨depth - 1, by omega⟩
     refine ⟨nodeAt f t (Enc.bytesL [a, b, c, d]) pre, ?_, rfl, ?_⟩
-    · simp only [Enc.bytes]; exact decodeAt_node f t _ pre rest hf ht
+    · simp only [Enc.bytes]; exact decodeAt_node f t _ pre rest hf ht.1 ht.2
     · simp only [Enc.bytes, Enc.tree]
       have hdata : pre ++ Spec.tlv f t (Enc.bytesL [a, b, c, d]) ++ rest
           = (pre ++ t :: specLength f (Enc.bytesL [a, b, c, d]).length) ++ Enc.bytesL [a, b, c, d] ++ rest := by
